@@ -27,7 +27,7 @@ class Unsupported(Exception):
 COQ_RESERVED = {
     "fix", "in", "at", "as", "if", "then", "else", "end", "fun", "let", "match", "with", "return",
     "forall", "exists", "Type", "Set", "Prop", "IF", "mod", "where", "for", "using", "cofix", "struct",
-    "xadd", "xsub", "xmul", "xdiv", "xneg", "xabs", "xmin", "xmax", "xle", "xlt", "xge", "xgt", "sum",
+    "pymin", "pymax", "xadd", "xsub", "xmul", "xdiv", "xneg", "xabs", "xmin", "xmax", "xle", "xlt", "xge", "xgt", "sum",
     "fst", "snd", "pair", "list", "nat", "bool", "true", "false", "None", "Some", "option", "id", "pred",
     "S", "O", "Z", "Q", "N", "length", "map", "filter", "app", "rev", "nth", "negb", "andb", "orb", "not", "eq",
     "lt", "le", "gt", "ge", "max", "min", "abs", "plus", "mult", "minus", "opp", "inv", "proj1", "proj2",
@@ -225,8 +225,9 @@ class Expr:
                     return {"inf": "(XInf true)", "-inf": "(XInf false)", "nan": "XNaN"}[args[0].value], "num"
                 return self.num(args[0]), "num"
             if f.id in ("min", "max") and len(args) == 2 and not e.keywords:
-                # Python builtin on scalars: min(a,b) = b if b < a else a (NaN-order dependent); only for finite scalars
-                raise Unsupported("builtin min/max")
+                # Python builtin on scalars, with its argument-order dependence kept: min(a, b) = b if b < a else a,
+                # max(a, b) = b if b > a else a (a comparison with NaN is False, so a NaN first argument is returned)
+                return f"({'pymin' if f.id == 'min' else 'pymax'} {self.num(args[0])} {self.num(args[1])})", "num"
             if f.id in self.funcs:
                 cn, rt = self.funcs[f.id]
                 return "(" + " ".join([cn] + [self.num(a) for a in args]) + ")", rt
@@ -497,8 +498,15 @@ def find_function(tree, qualname):
 
 def preprocess_body(body, site):
     """site options that expose values which are not plain local names:
+       body_from=marker                 the kernel is the tail of the function starting at the first top-level statement whose
+                                        source begins with the marker (the declared parameters are the values computed before it)
        dict_outputs=(var, {key: out})   `var = {key: expr, ...}`        -> `out = expr` for every listed key
        call_kwargs=(func, {kw: out})    `... func(..., kw=expr, ...)`   -> `out = expr` placed before the statement"""
+    if "body_from" in site:
+        idx = [i for i, st in enumerate(body) if src(st).startswith(site["body_from"])]
+        if not idx:
+            raise Unsupported("body_from marker not found: " + site["body_from"])
+        body = body[idx[0]:]
     if "dict_outputs" in site:
         var, keys = site["dict_outputs"]
         hit = False
